@@ -7,13 +7,17 @@ from dsim import core, kernel, w5
 from dsim.core import Violation
 
 
+# a complete, well-framed NDEF record whose TYPE field is not ASCII (the ndef library raises UnicodeDecodeError)
+NONASCII = b"\xd1\x03\x00\xff\xfe\xfd"
+
+
 def snep_fragments(sim):
     """list of byte strings a byzantine SNEP client sends (each one I PDU payload)"""
     n = sim.randint("snep.nfrag", 1, 6)
     out = []
     for i in range(n):
         g = sim.pick("snep.g", ["short", "version", "huge", "continue", "reject", "valid-put", "valid-get", "badlen", "random",
-                                "empty", "get-short"])
+                                "empty", "get-short", "put-nonascii", "get-nonascii"])
         body = sim.bytes("snep.body", sim.pick("snep.bl", [0, 3, 20, 120]), tag=i)
         f = {
             "short": b"\x10\x02\x00"[:sim.randint("snep.cut", 0, 3)] + b"", "version": b"\x20\x02" + struct.pack(">L", len(body)) + body,
@@ -23,6 +27,8 @@ def snep_fragments(sim):
             "badlen": b"\x10\x02" + struct.pack(">L", len(body) + sim.pick("snep.dl", [1, 7, 1000])) + body,
             "random": sim.bytes("snep.r", sim.pick("snep.rl", [1, 5, 6, 7, 60]), tag=50 + i), "empty": b"",
             "get-short": b"\x10\x01" + struct.pack(">L", 2) + b"\x00\x00",
+            "put-nonascii": b"\x10\x02" + struct.pack(">L", len(NONASCII)) + NONASCII,
+            "get-nonascii": b"\x10\x01" + struct.pack(">L", 4 + len(NONASCII)) + struct.pack(">L", 100) + NONASCII,
         }[g]
         out.append((g, f[:128]))
     return out
@@ -73,8 +79,8 @@ def run_app(sim, params):
                 frags = []
                 msg = b"".join(ndef.message_encoder([ndef.HandoverRequestRecord("1.2", 1)]))
                 for i in range(sim.randint("ho.nfrag", 1, 5)):
-                    g = sim.pick("ho.g", ["valid", "half", "garbage", "select", "empty", "two", "badtnf"])
-                    frags.append((g, {"valid": msg, "half": msg[:len(msg) // 2], "garbage": sim.bytes("ho.r", 30, tag=i),
+                    g = sim.pick("ho.g", ["valid", "half", "garbage", "select", "empty", "two", "badtnf", "nonascii"])
+                    frags.append((g, {"nonascii": NONASCII, "valid": msg, "half": msg[:len(msg) // 2], "garbage": sim.bytes("ho.r", 30, tag=i),
                                       "select": b"".join(ndef.message_encoder([ndef.HandoverSelectRecord("1.2")])), "empty": b"",
                                       "two": msg + msg, "badtnf": b"\xd7\x02\x00Hr"}[g]))
             for g, f in frags:
@@ -110,9 +116,10 @@ def run_app(sim, params):
         elif mode == "byz-snep-server":
             rs = []
             for i in range(4):
-                g = sim.pick("ss.g", ["short", "success", "continue", "excess", "badlen", "version", "random", "empty", "frag"])
+                g = sim.pick("ss.g", ["short", "success", "continue", "excess", "badlen", "version", "random", "empty", "frag",
+                                      "success-nonascii"])
                 body = b"\xd0\x00\x00"
-                rs.append((g, {"short": b"\x10\x81\x00", "success": b"\x10\x81" + struct.pack(">L", 3) + body, "continue": b"\x10\x80\x00\x00\x00\x00",
+                rs.append((g, {"success-nonascii": b"\x10\x81" + struct.pack(">L", len(NONASCII)) + NONASCII, "short": b"\x10\x81\x00", "success": b"\x10\x81" + struct.pack(">L", 3) + body, "continue": b"\x10\x80\x00\x00\x00\x00",
                                "excess": b"\x10\xc1\x00\x00\x00\x00", "badlen": b"\x10\x81" + struct.pack(">L", 500) + body,
                                "version": b"\x30\x81\x00\x00\x00\x00", "random": sim.bytes("ss.r", sim.pick("ss.rl", [1, 6, 20]), tag=i),
                                "empty": b"", "frag": b"\x10\x81" + struct.pack(">L", 300) + bytes(100)}[g]))
@@ -122,7 +129,12 @@ def run_app(sim, params):
                 c = nfc.snep.SnepClient(R, max_ndef_msg_recv_size=sim.pick("rc.max", [10, 1024]))
                 for i in range(3):
                     if sim.chance("rc.get", 0.5):
-                        c.get_records([ndef.TextRecord("q")], timeout=0.5)
+                        try:
+                            c.get_records([ndef.TextRecord("q")], timeout=0.5)
+                        except (ndef.DecodeError, UnicodeError):
+                            # documented as "same as list(ndef.message_decoder(get_octets(...)))": what the ndef
+                            # library raises for undecodable message octets is the documented outcome
+                            sim.probe("app.client_decode_error")
                     else:
                         c.put_records([ndef.TextRecord("p" * sim.pick("rc.len", [1, 300, 700]))], timeout=0.5)
                 c.close()
@@ -131,8 +143,8 @@ def run_app(sim, params):
             rs = []
             hs = b"".join(ndef.message_encoder([ndef.HandoverSelectRecord("1.2")]))
             for i in range(3):
-                g = sim.pick("hs.g", ["valid", "half", "garbage", "request", "empty", "badtnf", "huge"])
-                rs.append((g, {"valid": hs, "half": hs[:3], "garbage": sim.bytes("hs.r", 40, tag=i), "empty": b"",
+                g = sim.pick("hs.g", ["valid", "half", "garbage", "request", "empty", "badtnf", "huge", "nonascii"])
+                rs.append((g, {"nonascii": NONASCII, "valid": hs, "half": hs[:3], "garbage": sim.bytes("hs.r", 40, tag=i), "empty": b"",
                                "request": b"".join(ndef.message_encoder([ndef.HandoverRequestRecord("1.2", 2)])),
                                "badtnf": b"\xd7\x02\x00Hs", "huge": b"\xc1\x02\x7f\xff\xff\xffHs" + bytes(50)}[g]))
             k.spawn(guarded("byz", lambda: byz_server(b"urn:nfc:sn:handover", rs)), name="byz-server", daemon=True)
